@@ -88,6 +88,28 @@ func (px *c15Proxier) leg(v ssa.Value, depth int) int {
 		return legUnknown
 	}
 	r := c15Root(v)
+	// a field of a small per-connection struct built in the handler (relay{s, conn, id}): what was stored there
+	if ld, ok := r.(*ssa.UnOp); ok && ld.Op == token.MUL {
+		if fa, ok := ld.X.(*ssa.FieldAddr); ok {
+			if a, ok := px.throughParams(c15Root(fa.X), 0).(*ssa.Alloc); ok {
+				var stored ssa.Value
+				n := 0
+				for _, ref := range *a.Referrers() {
+					if fa2, ok := ref.(*ssa.FieldAddr); ok && fa2.Field == fa.Field {
+						for _, r2 := range *fa2.Referrers() {
+							if st, ok := r2.(*ssa.Store); ok && st.Addr == ssa.Value(fa2) {
+								stored = st.Val
+								n++
+							}
+						}
+					}
+				}
+				if n == 1 {
+					return px.leg(stored, depth+1)
+				}
+			}
+		}
+	}
 	switch x := r.(type) {
 	case *ssa.Parameter:
 		if x == px.conn {
